@@ -49,6 +49,7 @@ type fakeZk struct {
 	expired   []time.Time // broadcasts
 	events    chan zk.Event
 	block     chan struct{}
+	app       *protocol.ApplicationContext
 }
 
 func (f *fakeZk) Close() {}
@@ -109,6 +110,14 @@ func (l *fakeZkLock) Lock() error {
 		f.mu.Lock()
 		f.expired = append(f.expired, time.Now())
 		f.mu.Unlock()
+		if f.sc.down[cycle] == 0 {
+			// a flap: the zookeeper coordinator handles the expiry and the reconnection before the woken manager
+			// is scheduled — emulated by doing exactly what its main loop does for the two events, back to back
+			f.app.ZookeeperConnected = false
+			f.app.ZookeeperExpired.Broadcast()
+			f.app.ZookeeperConnected = true
+			return
+		}
 		f.events <- zk.Event{Type: zk.EventSession, State: zk.StateExpired}
 		time.Sleep(time.Duration(f.sc.down[cycle]) * time.Millisecond)
 		f.events <- zk.Event{Type: zk.EventSession, State: zk.StateConnected}
@@ -144,6 +153,7 @@ func runZkScenario(line string) string {
 		fake.failsLeft = sc.fails[0]
 	}
 	app := &protocol.ApplicationContext{Logger: zap.NewNop(), EvaluatorChannel: make(chan *protocol.EvaluatorRequest), ZookeeperRoot: "/burrow"}
+	fake.app = app
 	if err := verifhook.StartZookeeper(app, fake, fake.events); err != nil {
 		return "bad-op"
 	}
@@ -293,7 +303,7 @@ func genZkLoop(g *gen) {
 		for c := 0; c < cycles; c++ {
 			fails = append(fails, fmt.Sprint(g.intn(3)))
 			wait = append(wait, fmt.Sprint(g.pick(200, 350, 600, 1250)))
-			down = append(down, fmt.Sprint(g.pick(30, 150, 400)))
+			down = append(down, fmt.Sprint(g.pick(0, 0, 1, 30, 150, 400)))
 		}
 		g.emit("Z run fails=%s wait=%s down=%s early=0 groups=%d mi=1 tail=450", strings.Join(fails, ","), strings.Join(wait, ","), strings.Join(down, ","), 1+g.intn(3))
 	}
